@@ -64,7 +64,7 @@ def mc_object(res, binary, base, fields, nest_at, nest_fields, glob, steps, nobj
 
 def drive_hist(res, binary, seed, n, types=None, shards=None, label="hist"):
     """Seeded random histories on the real code (all corpus types and flavours), validated by Trace_PbObject."""
-    schema = export_schema(binary)
+    schema = export_schema(binary, tuple(types or ()))
     env = {"VERIF_TYPES": ",".join(types)} if types else None
     gen = os.path.join(scratch(), "%s-gen-%d.ndjson" % (label, seed))
     tr = os.path.join(scratch(), "%s-trace-%d.ndjson" % (label, seed))
@@ -106,7 +106,7 @@ ALL_LAWS = ["AllWellFormed", "RoundTripLaw", "EqLaws", "MergeIsConcat", "MergeOp
 
 
 def mc(res, binary, label, base, fields, glob, steps, nobj=2, nest_at=0, nest_fields=(), laws=ALL_LAWS, bad_utf8=False):
-    schema = export_schema(binary)
+    schema = export_schema(binary, (base,))
     tour = os.path.join(scratch(), "obj-%s.tour" % label)
     c = cfg({"Type": '"%s"' % base, "Fields": tlaset(fields), "NestAt": nest_at, "NestFields": tlaset(nest_fields),
              "Global": tlaset('"%s"' % g for g in glob), "MaxSteps": steps, "NObj": nobj, "BadUtf8": "TRUE" if bad_utf8 else "FALSE"},
